@@ -187,6 +187,8 @@ pub enum Stmt {
     ALock { owned: bool, k: u32 },
     APoll(usize),
     ACancel(usize),
+    /// lru: `lock_entries_unlocked_for_at_least(0)`; the guards are dropped again at once, in order
+    Expire,
 }
 
 fn parse_stmt(s: &str) -> Option<Stmt> {
@@ -222,6 +224,7 @@ fn parse_stmt(s: &str) -> Option<Stmt> {
         ["acancel", slot] => Stmt::ACancel(nat(slot)?),
         ["count"] => Stmt::Count,
         ["keys"] => Stmt::Keys,
+        ["expire"] => Stmt::Expire,
         _ => return None,
     })
 }
@@ -243,6 +246,7 @@ impl fmt::Display for Stmt {
             Stmt::ALock { owned, k } => write!(f, "alock {} {}", if *owned { "ao" } else { "a" }, k),
             Stmt::APoll(slot) => write!(f, "apoll {slot}"),
             Stmt::ACancel(slot) => write!(f, "acancel {slot}"),
+            Stmt::Expire => write!(f, "expire"),
         }
     }
 }
